@@ -58,7 +58,10 @@ def run(chk):
     # 2 ActorRef.cast, 3 ActorRef.call, 4 ActorRef.call with timeout, 5 rpc::cast, 6 rpc::call, 7 ActorRef.call_and_forward,
     # 8 rpc::call_and_forward, 9 rpc::multi_call), followed by a
     # correct message that must still be handled; and correctly typed cast / call
-    entry_blocks = ([(A.S(90, f"w{k}"), A.S(91)) for k in range(10)] + [(A.S(90, str(k)),) for k in (2, 3, 4, 6)]
+    entry_blocks = ([(A.S(90, f"w{k}"), A.S(91)) for k in "0123456789dr"] + [(A.S(90, str(k)),) for k in (2, 3, 4, 6)]
+                    # DerivedActorRef (get_derived: converter closure, TryFrom back-conversion of a refused message) and
+                    # typed registry lookup (ActorRef::where_is + is_message_type_of)
+                    + [(A.S(90, k), A.S(91)) for k in "dr"] + [(A.S(90, "d"), A.D, A.S(91, "d")), (A.S(90, "r"), A.T, A.S(91, "r"))]
                     # a request through call_and_forward / multi_call followed by another send of the same sender:
                     # the request must be in the mailbox when the call returns (real-time order)
                     + [(A.S(90, str(k)), A.S(91)) for k in (7, 8, 9)]
@@ -113,7 +116,7 @@ def run(chk):
         "atomic blocks (un-gated sends, stop, kill, drain, wrong-typed send, failing handler, self-sending handler; "
         "wrong-typed and correctly typed requests through every public entry point: ActorCell::send_message, "
         "ActorRef::<T>::from(cell).send_message / cast / call / call with timeout / call_and_forward, rpc::cast, rpc::call, "
-        "rpc::call_and_forward, rpc::multi_call; ActorCell::send_serialized Cast / Call with dropped or live reply receiver); "
+        "rpc::call_and_forward, rpc::multi_call, DerivedActorRef::send_message (get_derived), ActorRef::where_is + send; ActorCell::send_serialized Cast / Call with dropped or live reply receiver); "
         "remote-id target (spawn_linked_remote): all action sequences of length <= 3 over serializable / non-serializable "
         "sends, drain, stop, run, plus seeded random ones; "
         "random: seeded structured scenarios (up to 3 parked threads, handler scripts with self-sends / drain / stop / kill, "
